@@ -704,7 +704,8 @@ cdef class Writer:
             self.schema = parse_schema(schema, self._named_schemas)
             self.sync_marker = sync_marker or urandom(SYNC_SIZE)
 
-            self.metadata = metadata or {}
+            # the header entries are added to a copy, not to the caller's dictionary
+            self.metadata = dict(metadata) if metadata else {}
             self.metadata["avro.codec"] = codec
 
             if isinstance(schema, dict):
